@@ -14,6 +14,7 @@ func init() {
 	vRegister("H01_coder", H01_coder)
 	vRegister("H03_coder", H03_coder)
 	vRegister("H08_tmp", H08_tmp)
+	vRegister("H06_locids", H06_locids)
 }
 
 // K5_synonym: the (synonym id, document) packing round-trips and orders by (id, doc), for all 32-bit values.
@@ -266,4 +267,56 @@ func H08_tmp() {
 			vAssert(tmp.Count() == cards[g], "count-general")
 		}
 	}
+}
+
+// H06_locids: the re-encoding merge path translates location field ids through the merged field table; for every
+// 16-bit id the size prefix it writes equals the bytes of the location records that follow, and the id read
+// back is the translated one.
+func H06_locids() {
+	docs, _ := vGenBatchFixed(gCfg{prefix: "", idBase: "d", nDocs: 2, wide: -1, noFx: true,
+		fields: []gField{{name: "f", terms: []string{"a"}, tv: true, maxLocs: 1, fixLocs: true}}})
+	var z ZapPlugin
+	segI, _, err := z.newWithChunkMode(docs, DefaultChunkMode)
+	vAssert(err == nil, "build")
+	sb := segI.(*SegmentBase)
+	d, err := sb.dictionary("f")
+	vAssert(err == nil && d != nil, "dict")
+	pl, err := d.postingsList([]byte("a"), nil, nil)
+	vAssert(err == nil, "pl")
+	it := pl.iterator(true, true, true, nil)
+	id := vU16("mergedFieldID")
+	vAssume(id < 0xffff)
+	fieldsMap := map[string]uint16{"_id": 1, "f": id + 1}
+	tf := newChunkedIntCoder(1024, 1)
+	lc := newChunkedIntCoder(1024, 1)
+	bm := roaring.New()
+	_, _, _, _, err = mergeTermFreqNormLocs(fieldsMap, []byte("a"), it, []uint64{0, 1}, bm, tf, lc, nil)
+	vAssert(err == nil, "merge-locs")
+	tf.Close()
+	lc.Close()
+	var out bytes.Buffer
+	w := NewCountHashWriter(&out)
+	_, _ = w.Write([]byte{0xEE})
+	off, _, err := lc.writeAt(w)
+	vAssert(err == nil && off == 1, "write")
+	b := append(out.Bytes(), make([]byte, 16)...)
+	ends, data := lIntStream(b, off)
+	vAssert(len(ends) == 1, "one-chunk")
+	p := data
+	for hit := 0; hit < 2; hit++ {
+		var nb uint64
+		nb, p = lUvarint(b, p)
+		end := p + nb
+		var fid uint64
+		fid, p = lUvarint(b, p)
+		vAssert(fid == uint64(id), "translated-id")
+		for k := 0; k < 3; k++ { // pos, start, end
+			_, p = lUvarint(b, p)
+		}
+		var nap uint64
+		nap, p = lUvarint(b, p)
+		vAssert(nap == 0, "no-array-positions")
+		vAssert(p == end, "size-prefix")
+	}
+	vAssert(p == data+ends[0], "stream-end")
 }
